@@ -78,6 +78,36 @@ Theorem C11_adv_is_enabled : forall g,
 Proof. intros g. split; [apply r_adv_enabled | split; [apply w_adv_enabled | apply s_adv_enabled]]. Qed.
 Print Assumptions C11_adv_is_enabled.
 
+(* ---- failures surface, at the right place ----
+   What next() is about to return is exactly what the (mapped) source holds at the CONSUMER's position: the item, the
+   map_fn error, the source's own error, or the end of the source.  So an error surfaces at the failing position — every
+   earlier item having been delivered, in order (C04) — and is never replaced by a clean StopIteration; StopIteration is
+   reported only at the true end of the source.  Every reachable state of every interleaving without a reader-join timeout.
+   [CRel x i / CRelErr e i / CRelStop: the consumer holds the entry and is releasing its permit before returning it] *)
+Theorem C11_parallel_mapper_next_returns_what_is_at_the_position : forall c, k_pm c = true -> k_inorder c = true ->
+  forall script sched, jt_free c (init script) sched = true ->
+  forall g, cur (run c sched (init script)) = Some g ->
+  match g_c g with
+  | CRel x i => i = g_recv g /\ PItem x = mpay c (g_base g + g_recv g)
+  | CRelErr e i => i = g_recv g /\ PErr e = mpay c (g_base g + g_recv g)
+  | CRelStop => mpay c (g_base g + g_recv g) = PStop
+  | _ => True
+  end.
+Proof. exact next_returns_what_is_at_the_position. Qed.
+Print Assumptions C11_parallel_mapper_next_returns_what_is_at_the_position.
+
+Theorem C11_prefetcher_next_returns_what_is_at_the_position : forall c, k_pm c = false ->
+  forall script sched, jt_free c (init script) sched = true ->
+  forall g, cur (run c sched (init script)) = Some g ->
+  match g_c g with
+  | CRel x i => i = g_recv g /\ PItem x = spay c (g_base g + g_recv g)
+  | CRelErr e i => i = g_recv g /\ PErr e = spay c (g_base g + g_recv g)
+  | CRelStop => spay c (g_base g + g_recv g) = PStop
+  | _ => True
+  end.
+Proof. exact pf_next_returns_what_is_at_the_position. Qed.
+Print Assumptions C11_prefetcher_next_returns_what_is_at_the_position.
+
 (* ---- bounded work ----
    rho : gen -> nat (ConcProg.v) weighs every entry by the number of data-path moves it still needs (11 per entry the source
    can still yield, ..., 2 in the sorter's output, 1 while the consumer holds its permit).  NO move of ANY thread of an
